@@ -577,9 +577,10 @@ fn main() {
     ctx.require(&["empty vector", "pairs of length 4", "long vector (>= 16)", "descending sequence", "power spacing p != 1", "complex entry on the negative imaginary axis", "coinciding limits", "limits a few ulp apart", "entries whose squares overflow", "entries whose squares underflow", "empty vector state", "full-length state", "insert in the middle", "resize"]);
     let l = letters();
     // singles
-    let total: u64 = (0..=4u32).map(|k| 5u64.pow(k)).sum();
+    let smax = ctx.pick(4u32, 6u32);
+    let total: u64 = (0..=smax).map(|k| 5u64.pow(k)).sum();
     ctx.lattice(
-        "Vector<Rat>: all vectors of length 0..4 over {0,1,-1,2,1/2} (unary operators, reductions, every range)",
+        &format!("Vector<Rat>: all vectors of length 0..{} over {{0,1,-1,2,1/2}} (unary operators, reductions, every range)", smax),
         total,
         |idx| {
             let mut i = idx;
@@ -610,7 +611,7 @@ fn main() {
             judge(acc, idx, || sh(&a), || single_case(&a));
         },
     );
-    for len in 0..=4usize {
+    for len in 0..=ctx.pick(4usize, 5usize) {
         let cnt = 5u64.pow(len as u32);
         ctx.lattice(
             &format!("Vector<Rat>: all ordered pairs of length {} over 5 letters (+, -, dot, assignment forms)", len),
@@ -619,7 +620,7 @@ fn main() {
             |idx, acc| {
                 let a = vec_of(idx / cnt, len, &l);
                 let b = vec_of(idx % cnt, len, &l);
-                if len == 4 {
+                if len >= 4 {
                     acc.nontriv("pairs of length 4");
                 }
                 if len == 0 {
@@ -662,9 +663,10 @@ fn main() {
     );
     // f64 norms
     let fl = [0.0, 1.0, -2.0, 3.0];
-    let totalf: u64 = (0..=6u32).map(|k| 4u64.pow(k)).sum();
+    let fmax = ctx.pick(6u32, 9u32);
+    let totalf: u64 = (0..=fmax).map(|k| 4u64.pow(k)).sum();
     ctx.lattice(
-        "Vector<f64>: all integer-valued vectors of length 0..6 over {0,1,-2,3}: norms, inequalities, homogeneity, triangle inequality",
+        &format!("Vector<f64>: all integer-valued vectors of length 0..{} over {{0,1,-2,3}}: norms, inequalities, homogeneity, triangle inequality", fmax),
         totalf,
         |idx| format!("{}", idx),
         |idx, acc| {
@@ -690,9 +692,10 @@ fn main() {
     {
         let b = 2.0f64;
         let xl = [0.0, 1.0, -3.0, b.powi(600), -3.0 * b.powi(600), b.powi(-600), 5.0 * b.powi(-620), -b.powi(520), 1e200, -1e-200];
-        let total: u64 = (1..=4u32).map(|k| 10u64.pow(k)).sum();
+        let emax = ctx.pick(4u32, 6u32);
+        let total: u64 = (1..=emax).map(|k| 10u64.pow(k)).sum();
         ctx.lattice(
-            "Vector<f64> norms on data of extreme magnitude: all vectors of length 1..4 over {0,1,-3,+-2^600 multiples,2^-600,5*2^-620,-2^520,1e200,-1e-200}",
+            "Vector<f64> norms on data of extreme magnitude: all vectors of length 1..4 (thorough 1..6) over {0,1,-3,+-2^600 multiples,2^-600,5*2^-620,-2^520,1e200,-1e-200}",
             total,
             |idx| format!("{}", idx),
             |idx, acc| {
@@ -762,7 +765,7 @@ fn main() {
     {
         let cl = cletters();
         let k = cl.len() as u64;
-        for len in 0..=2usize {
+        for len in 0..=ctx.pick(2usize, 3usize) {
             let cnt = k.pow(len as u32);
             let cl = cl.clone();
             ctx.lattice(
